@@ -489,6 +489,21 @@ pub fn c08_case(c: &Case, r: &mut Rng, nperturb: usize, max_limit: u32) -> CaseO
         }
         vectors.push((v, false));
     }
+    // zlib level 6 style lazy matching and plain greedy matching, whatever the estimator chose
+    {
+        let mut v = base.clone();
+        v[18] = 1;
+        v[11] = 8;
+        v[12] = 16;
+        v[13] = 128;
+        v[14] = 128;
+        vectors.push((v, false));
+        let mut v = base.clone();
+        v[18] = 0;
+        v[11] = 0;
+        v[12] = 0;
+        vectors.push((v, false));
+    }
     for _ in 0..nperturb {
         vectors.push((perturb(r, &base, max_limit), false));
     }
@@ -693,6 +708,94 @@ pub fn encode_tokens(r: &mut Rng, toks: &[crate::gen::Tk], dynamic: bool) -> Vec
     w.code(llc[256], ll[256] as u32);
     w.pad(0);
     w.out
+}
+
+/// streams whose long matches start at positions where the predictor's position arithmetic changes
+/// regime: around the hash-chain reshift threshold (internal position 0xfe08, first reached at
+/// plaintext offset 0xfe00 and then every 0x7e00 bytes), the u16 limit, the 32 KiB window and the
+/// 4 KiB / 32 KiB add-policy boundaries. A maximum-length match at the position, a literal, a short
+/// match right behind it (so that lazy matching looks one byte ahead), then a tail.
+pub fn boundary_streams(r: &mut Rng, thorough: bool) -> Vec<(Vec<u8>, String)> {
+    use crate::gen::*;
+    let mut centres: Vec<usize> = vec![0xfe00, 0xfefd - 8, 0x10000 - 8, 0xfe00 + 0x7e00, 32768 - 0x106, 4096];
+    if thorough {
+        centres.extend([0xfe08, 0x10000, 32768, 8192, 0xfefd - 8 + 0x7e00, 0xfe00 + 2 * 0x7e00, 0xfefd - 8 + 2 * 0x7e00, 3 * 32768]);
+    }
+    let mut out = Vec::new();
+    for &c in &centres {
+        let span: Vec<i64> = if thorough { (-12..=12).collect() } else { vec![-8, -2, -1, 0, 1, 2, 8] };
+        for (off, variant) in span.iter().flat_map(|&o| [(o, 0), (o, 1)]) {
+            let pos = (c as i64 + off).max(600) as usize;
+            // prefix: text with a planted 300-byte block near its start that the long match copies
+            let mut p = plain_sized(r, pos);
+            if p.len() < pos {
+                p.resize(pos, b'x');
+            }
+            for v in p.iter_mut() {
+                if *v == 0 {
+                    *v = 1;
+                }
+            }
+            let mut toks: Vec<Tk> = p.iter().map(|&b| Tk::Lit(b)).collect();
+            // early on: a maximum-length match and a later reference into its interior, which makes
+            // the estimator choose "add all substrings" and with it the lazy-matching levels
+            if pos > 2000 && off % 2 == 0 {
+                let mut q: Vec<u8> = p[..300].to_vec();
+                let mut tk: Vec<Tk> = q.iter().map(|&b| Tk::Lit(b)).collect();
+                for i in 0..258 {
+                    let b = q[20 + i];
+                    q.push(b);
+                }
+                tk.push(Tk::Ref { len: 258, dist: 280, irregular: false });
+                for &b in &p[558..700] {
+                    q.push(b);
+                    tk.push(Tk::Lit(b));
+                }
+                // copy 6 bytes from the interior of the long match (its 100th byte)
+                let target = 300 + 100;
+                let d = q.len() - target;
+                for i in 0..3 {
+                    let b = q[target + i];
+                    q.push(b);
+                }
+                tk.push(Tk::Ref { len: 3, dist: d as u32, irregular: false });
+                let rest = pos - q.len();
+                let filler = plain_sized(r, rest);
+                for &b in &filler {
+                    let b = if b == 0 { 1 } else { b };
+                    q.push(b);
+                    tk.push(Tk::Lit(b));
+                }
+                p = q;
+                toks = tk;
+            }
+            let dist = *r.pick(&[300usize, 517, 4000, 20000, 32768]).min(&pos);
+            let dist = dist.max(259).min(pos).min(32768);
+            let push_ref = |p: &mut Vec<u8>, toks: &mut Vec<Tk>, len: usize, dist: usize| {
+                let st = p.len() - dist;
+                for i in 0..len {
+                    let b = p[st + i];
+                    p.push(b);
+                }
+                toks.push(Tk::Ref { len: len as u32, dist: dist as u32, irregular: false });
+            };
+            push_ref(&mut p, &mut toks, 258, dist);
+            if variant == 1 {
+                p.push(0);
+                toks.push(Tk::Lit(0));
+            }
+            let short = *r.pick(&[3usize, 3, 3, 4, 5, 8, 12]);
+            push_ref(&mut p, &mut toks, short, dist.min(700).max(short + 1));
+            let tail = plain_sized(r, 400);
+            for &b in &tail {
+                p.push(b);
+                toks.push(Tk::Lit(b));
+            }
+            let dynamic = r.chance(1, 2);
+            out.push((encode_tokens(r, &toks, dynamic), format!("boundary pos={pos} dist={dist} short={short} variant={variant}")));
+        }
+    }
+    out
 }
 
 /// all 256 final-padding patterns at every bit offset
